@@ -1,0 +1,57 @@
+//go:build verif
+
+package fifo
+
+// Contracts for govc (contract-based deductive verification; see /verif/DESIGN.md).
+// This file holds only comments and is compiled only with -tags verif.
+//
+// C13, per-key bookkeeping of the FIFO mutex map (DESIGN.md §6 C13). fifo.Mutex is a one-slot channel used as
+// a token; its Lock/Unlock are lock operations for the monitor rule (`opt lockop`). Mutual exclusion and FIFO
+// grant order are the semantics of Go channels (assumed, not proved here).
+//
+// Ghost `mine[k]` is thread-local: the number of holder/waiter units the current goroutine owns for key k
+// (incremented by Lock, decremented by Unlock). Other goroutines only ever remove their own units, so from
+// this goroutine's point of view an entry's ilen is never smaller than mine[k]: that is the lock invariant.
+
+//@ func New
+//@   tags C13 C07
+//@   modifies nothing
+//@   ensures fresh(result) && result != nil
+
+//@ func (*Mutex).Lock
+//@   tags C13
+//@   requires m != nil
+//@   opt lockop=lock
+//@   opt go=ignore
+//@ func (*Mutex).Unlock
+//@   tags C13
+//@   requires m != nil
+//@   opt lockop=unlock
+//@   opt go=ignore
+
+//@ type fifoMap
+//@   ghost mine [tp]int
+//@   lock lock protects items mapItem.ilen
+//@   lockinv lock self.items != nil
+//@   lockinv lock forall k tp :: haskey(self.items, k) ==> (self.items[k] != nil && self.items[k].ilen >= 1 && self.items[k].ilen >= self.mine[k] && self.items[k].mutex != nil && allocated(self.items[k]))
+//@   lockinv lock forall k tp :: !haskey(self.items, k) ==> self.mine[k] == 0
+//@   lockinv lock forall j tp, k tp :: (haskey(self.items, j) && haskey(self.items, k) && j != k) ==> self.items[j] != self.items[k]
+
+//@ func (*fifoMap).Lock
+//@   tags C13 C07
+//@   requires a != nil && a.lock != nil && a.mine[key] >= 0
+//@   ensures [C13.fifomap.lock.units] a.mine == update(old(a.mine), key, old(a.mine[key]) + 1)
+//@   ensures [C13.fifomap.lock.entry] at(U, haskey(a.items, key)) && at(U, a.items[key].ilen) >= a.mine[key]
+//@   at store ilen#0 ghost a.mine = update(a.mine, key, a.mine[key] + 1)
+//@   at before call Unlock#0 label U
+//@   at before call Lock#1 assert !held(a.lock)
+//@   at call Lock#0 assume forall k tp :: haskey(a.items, k) ==> a.items[k].ilen < 9223372036854775807
+
+//@ func (*fifoMap).Unlock
+//@   tags C13 C07
+//@   requires a != nil && a.lock != nil && a.mine[key] >= 1
+//@   ensures [C13.fifomap.unlock.units] a.mine == update(old(a.mine), key, old(a.mine[key]) - 1)
+//@   ensures [C13.fifomap.unlock.prune] at(U, haskey(a.items, key)) == (at(L, a.items[key].ilen) > 1)
+//@   at store ilen#0 ghost a.mine = update(a.mine, key, a.mine[key] - 1)
+//@   at call Lock#0 label L
+//@   at before call Unlock#0 label U
